@@ -264,7 +264,12 @@ class _ReusablePoolExecutor(ProcessPoolExecutor):
             ):
                 time.sleep(1e-3)
 
-            self._adjust_process_count()
+            # As for every other caller, hold the lock: it prevents the workers
+            # from leaving on idle timeout (and the executor manager thread
+            # from removing them from self._processes) while new ones are
+            # being spawned.
+            with self._processes_management_lock:
+                self._adjust_process_count()
             _verif_point("resize.after_adjust")
             # Make the executor manager thread aware of the new workers: it
             # only watches the sentinels of the workers that existed when it
